@@ -273,15 +273,20 @@ class Spec(EvalableModel):
                 for a in c.actions:
                     orig_action = orig.actions[a.name]
                     orig_action.energy = a.energy
+                    orig_action._calculated = orig_action._calculated | a._calculated
             if throughput:
                 c = c.calculate_action_throughput(models)
                 for a in c.actions:
                     orig_action = orig.actions[a.name]
                     orig_action.throughput = a.throughput
+                    orig_action._calculated = orig_action._calculated | a._calculated
             if leak:
                 c = c.calculate_leak_power(models)
                 orig.leak_power = c.leak_power
                 orig.total_leak_power = c.leak_power * global_fanout
+            # Remember what now holds final values so that another call does not apply
+            # the scale factors again.
+            orig._calculated = orig._calculated | c._calculated
             orig.component_modeling_log = prev_log + c.component_modeling_log
             orig.component_model = c.component_model
 
